@@ -71,9 +71,22 @@ def gen_case(rng, force_circular=None) -> dict:
     # style "sparse": many small areas tied into one region by a long connector, so that several areas share a row
     sparse = rng.random() < 0.35
     protos: list[dict] = []
-    for j in range(rng.randrange(3, 7) if sparse else rng.randrange(1, 7)):
+    # style "tail-row": small areas beyond the middle of the record, chained A-B-C so that A and C share a row, and an
+    # area crossing the origin whose long post-origin side reaches back to A only (it is packed after them)
+    tail_row = []
+    if circular and off == 0 and n_genes >= 8 and count == n_genes and rng.random() < 0.12:
+        a_start = (n_genes - 4) * STEP
+        reach = a_start + rng.choice([20, 50, 90]) + (length - ((n_genes - 1) * STEP + GLEN))
+        tail_row = [{"first": n_genes - 4, "ncore": 1, "nl": 0, "nr": 0, "padl": 0, "padr": 40, "sideloaded": False},
+                    {"first": n_genes - 3, "ncore": 1, "nl": 0, "nr": 1, "padl": 10, "padr": 0, "sideloaded": False},
+                    {"first": n_genes - 2, "ncore": 1, "nl": 0, "nr": 0, "padl": 0, "padr": 0, "sideloaded": False},
+                    {"first": n_genes - 1, "ncore": 1, "nl": 0, "nr": reach // STEP, "padl": 0, "padr": reach % STEP,
+                     "sideloaded": rng.random() < 0.3}]
+    for j in range(len(tail_row) or (rng.randrange(3, 7) if sparse else rng.randrange(1, 7))):
         product = rng.choice(["alpha", "beta", "gamma"]) + str(j)
-        if sparse and rng.random() < 0.75:
+        if tail_row:
+            spec = tail_row[j]
+        elif sparse and rng.random() < 0.75:
             ncore = rng.choice([1, 1, 2])
             first = rng.randrange(0, count) if circular else rng.randrange(0, n_genes - ncore + 1)
             nl = rng.choice([0, 0, 1])
